@@ -83,7 +83,9 @@ class C10(Prop):
 
     def _rec(self, rng):
         te = rng.choice([Fraction(1), Fraction(1), Fraction(2), Fraction(10), Fraction(1, 2)])
-        sr_file = rng.choice([8192, 16384, 4096])
+        sr_file = rng.choice([8192, 16384, 4096, 44100, 22050])  # 44100 * k/1024 is not whole: floor() matters
+        if sr_file in (44100, 22050) and te == Fraction(1, 2) and sr_file % 2:
+            te = Fraction(1)
         return {"sr": Fraction(sr_file) * te, "te": te}
 
     def _seg_import(self, rng):
@@ -116,6 +118,12 @@ class C10(Prop):
             ny = rec["sr"] / 2
             s = Fraction(rng.randint(0, 16), 4)
             g = {"type": "BoundingBox", "coordinates": [s, ny - rng.choice([1000, 1, 0]), s + Fraction(rng.randint(0, 8), 4), ny + rng.choice([0, 1, 500])]}
+        if g is not None and rng.random() < 0.3:
+            # times on a fine dyadic grid: time * samplerate is then fractional, and the sample index is its floor
+            s = Fraction(rng.randint(0, 4096), 1024)
+            e = s + Fraction(rng.randint(0, 2048), 1024)
+            g = rng.choice([{"type": "TimeInterval", "coordinates": [s, e]},
+                            {"type": "BoundingBox", "coordinates": [s, Fraction(100), e, Fraction(900)]}])
         return {"kind": kind, "rec": rec, "g": g, "cast": rng.random() < 0.7, "raise_on_time": rng.random() < 0.5, "omit_defaults": rng.random() < 0.5}
 
     def _sequence(self, rng):
